@@ -409,6 +409,10 @@ class LBCheck(BaseCheck):
           ss.join(ep)
           stats['joins'] += 1
       else:
+        if idx % 6 == 3 and rng.random() < 0.15:
+          # the wall clock is set back by hours (VM restore, manual reset) between two operations
+          env.clock.wall_offset -= rng.choice([7200.0, 86400.0])
+          classes.add('wall-clock-steps-back-hours')
         env.advance(rng.choice([0.001, 0.05, 0.6, 2.5]) * rng.random())
       env.settle()
       stats['timeouts'] = sum(1 for r in w.requests if r['deliveries'] and
